@@ -12,7 +12,7 @@
 __CPROVER_requires(GH_INV && verif_thrown == 0)
 /*@ clause frame src=property props=C14,C20 */
 __CPROVER_assigns(verif_thrown, cap_fx, cap_fy, cap_v00, cap_v01, cap_v10, cap_v11, cap_ix, cap_iy;
-                  !self->_threadsafe: self->_ix, self->_iy, self->_v00, self->_v01, self->_v10, self->_v11, __CPROVER_object_whole(self->_t))
+                  !self->_threadsafe: self->_ix, self->_iy, self->_v00, self->_v01, self->_v10, self->_v11, __CPROVER_object_upto(self->_t, sizeof(self->_t)))
 /*@ clause post.no_other_exception src=property props=C13 */
 __CPROVER_ensures(!verif_thrown_other)
 /*@ clause post.nan src=property props=C20,C13 */
